@@ -22,16 +22,19 @@ def obligations(tier):
     l1 = ['f32', 'i16', 'u8', 'u4', 'u1', 'i32'] if tier == 'quick' else list(TYPES)
     for t in l1:
         sdf = 8 if t == 'u1' else 4
-        o.append(Obl('L1_minmax_%s' % t, 'c02_summary.c', units=['wr_fsr.c', 'datatype.c'], defines=HOOKS + TYPES[t] + ['MODE_L1=1', 'SDF=%d' % sdf, 'NE=2'],
-                     unwind=2 * sdf + 4, timeout=to, backend=PORTFOLIO, unwind_text=[('harness', r'SYM_BYTES|grid_idx', 2 * sdf * 8 + 2)],
+        o.append(Obl('L1_minmax_%s' % t, 'c02_summary.c', units=['wr_fsr.c', 'datatype.c'], stubs=['log_stub.c', 'fp_stub.c'], defines=HOOKS + TYPES[t] + ['MODE_L1=1', 'SDF=%d' % sdf, 'NE=2'],
+                     unwind=2 * sdf + 4, timeout=to, backend=PORTFOLIO, unwind_text=[('harness', r'SYM_BYTES|grid_idx', 2 * sdf * 8 + 2), ('jls_core_fsr_summary1', r'idx < summaries_per', 4),
+                                  ('jls_core_fsr_summary1', r'sample < self->parent->signal_def.sample_decimate_factor', sdf + 2), ('harness', r'i < SDF', sdf + 2)],
+                     typed_calloc=True, flags=['--max-field-sensitivity-array-size', '1024'],
                      desc='level-1 reduction of one block, type %s: min/max exact, NaN handling, entry width, index/timestamps' % t,
                      bound='block of 2 entries x %d samples, all sample bit patterns' % sdf))
     for t in (['f32', 'f64'] if tier == 'quick' else ['f32', 'f64', 'i32', 'u8']):
-        o.append(Obl('LN_minmax_%s' % t, 'c02_summary.c', units=['wr_fsr.c', 'datatype.c'], defines=HOOKS + TYPES[t] + ['MODE_LN=1', 'SUMDF=3', 'NE=2'],
-                     unwind=10, timeout=to, backend=PORTFOLIO, unwind_text=[('harness', r'i < NE \* SUMDF \* JLS_SUMMARY_FSR_COUNT', 27)],
+        o.append(Obl('LN_minmax_%s' % t, 'c02_summary.c', units=['wr_fsr.c', 'datatype.c'], stubs=['log_stub.c', 'fp_stub.c'], defines=HOOKS + TYPES[t] + ['MODE_LN=1', 'SUMDF=3', 'NE=2'],
+                     unwind=10, timeout=to, backend=PORTFOLIO, unwind_text=[('harness', r'i < NE \* SUMDF \* JLS_SUMMARY_FSR_COUNT', 27), ('jls_core_fsr_summaryN', r'SUMMARYN_BODY_TEMPLATE', 5), ('harness', r'i < SUMDF', 5)],
+                     typed_calloc=True, flags=['--max-field-sensitivity-array-size', '1024'],
                      desc='level-2 reduction of 6 symbolic level-1 entries (%s summaries): min of minima, max of maxima, NaN handling, index/timestamps' % ('64-bit' if t in ('f64', 'i32') else '32-bit'),
                      bound='2 level-2 entries x 3 level-1 entries, all float bit patterns'))
-    o.append(Obl('L1_meanstd_grid_f32', 'c02_summary.c', units=['wr_fsr.c', 'datatype.c'], defines=HOOKS + TYPES['f32'] + ['MODE_L1=1', 'GRID=1', 'SDF=3', 'NE=1'],
+    o.append(Obl('L1_meanstd_grid_f32', 'c02_summary.c', units=['wr_fsr.c', 'datatype.c'], stubs=['log_stub.c', 'fp_stub.c'], defines=HOOKS + TYPES['f32'] + ['MODE_L1=1', 'GRID=1', 'SDF=3', 'NE=1'],
                  unwind=12, timeout=to, backend=PORTFOLIO, tiers=('thorough',),
                  desc='level-1 mean/std bit-equal to the reference formula, f32 samples on an 8-value grid', bound='1 entry x 3 samples on an 8-value grid'))
     return o
